@@ -292,6 +292,9 @@ class Interp:
         if b in ("signedbv", "unsignedbv"):
             if isinstance(v, bool): return int(v)
             if isinstance(v, int): return self.wrap(v, tto)
+            if isinstance(v, FV) and v.num is not None:
+                q = v.num; return self.wrap(int(q) if q >= 0 else -int(-q), tto)        # conversion of a floating value to an integer truncates towards zero
+            if isinstance(v, Ptr) and v.obj is None: return 0
             raise ExecError("cast %s -> %s" % (a, b))
         if b in ("bool", "c_bool"): return self.truth(v)
         if b == "floatbv":
